@@ -77,6 +77,16 @@ class Topo:
 
 
 def make_pool(variant, backend, proxy, http1, http2):
+    if variant.endswith("-legacy"):
+        # the HTTPProxy / SOCKSProxy pool classes (their own __init__ and create_connection) instead of ConnectionPool(proxy=...)
+        sync = variant.startswith("sync")
+        kw = dict(ssl_context=sim.RecordingSSLContext("origin"), http1=http1, http2=http2, network_backend=backend, max_connections=10)
+        if proxy in ("http", "https"):
+            cls = httpcore.HTTPProxy if sync else httpcore.AsyncHTTPProxy
+            return cls(proxy_url=f"{proxy}://{scen.PROXY_HOST}:{scen.PROXY_PORT}",
+                       proxy_ssl_context=sim.RecordingSSLContext("proxy") if proxy == "https" else None, **kw)
+        cls = httpcore.SOCKSProxy if sync else httpcore.AsyncSOCKSProxy
+        return cls(proxy_url=f"{proxy}://{scen.SOCKS_HOST}:{scen.SOCKS_PORT}", **kw)
     cls = httpcore.ConnectionPool if variant == "sync" else httpcore.AsyncConnectionPool
     p = None
     if proxy == "http":
@@ -99,9 +109,11 @@ def url_of(scheme, host, port_form):
 def run_requests(variant, proxy, http1, http2, alpn, reqs):
     """reqs: list of (scheme, host, port_form, sni or None).  Returns (world, topo, results)."""
     topo = Topo(proxy, alpn)
+    full_variant = variant
+    variant = variant.split("-")[0]
     w = SeqWorld(Chooser([]), topo.router, variant=variant)
     w.env.fp = None
-    pool = make_pool(variant, w.backend, proxy, http1, http2)
+    pool = make_pool(full_variant, w.backend, proxy, http1, http2)
     results = []
     plan = []
     for i, (scheme, host, pf, sni) in enumerate(reqs):
@@ -480,7 +492,7 @@ def replay_case(case):
 def _job(chunk):
     out, n, classes = [], 0, set()
     for case in chunk:
-        for variant in ("sync", "async"):
+        for variant in (("sync", "async") if case[0] == "defctx" or case[1] == "none" else ("sync", "async", "sync-legacy", "async-legacy")):
             if case[0] == "defctx":
                 m, v = run_defctx_case(case, variant)
                 n += m
@@ -509,7 +521,7 @@ def check(tier="quick", seed=0, workers=None, only=None):
     ndef = sum(1 for c in allc if c[0] == "defctx")
     cov = {"evaluations": total, "distinct_nontrivial": len(classes), "exhaustive": True,
            "rule": ("full configuration product scheme(4) x port form(4) x proxy mode(5) x http1/http2 switches(3) x ALPN outcome(3) x sni_hostname(2), the same with the target request extension, and every request "
-                    "sequence of length 2-3 over every pair of origins (4 schemes x 2 hosts x 4 port forms) differing in exactly one effective component (also with all requests of a sequence made from one URL object changed in place), sync and async; "
+                    "sequence of length 2-3 over every pair of origins (4 schemes x 2 hosts x 4 port forms) differing in exactly one effective component (also with all requests of a sequence made from one URL object changed in place), sync and async, proxied pools built both as ConnectionPool(proxy=Proxy(...)) and as HTTPProxy / SOCKSProxy objects; "
                     "distinct class = (kind, proxy, switches, ALPN, schemes of the sequence, violated?); default-context cases: two pools built with ssl_context=None (httpcore.default_ssl_context() on the path, "
                     "the name ssl inside httpcore._ssl re-bound to hand out recording contexts), a request of pool B running start to finish inside every single trace event of a request of pool A, x http2 switches of A and B x proxy kind"),
            "samples": [{"case": repr(c)[:300]} for c in allc[:: max(1, len(allc) // 5)][:5]], "configurations": ncfg, "pair_sequences": len(allc) - ncfg - ndef, "default_context_configurations": ndef}
